@@ -21,7 +21,7 @@ META = {
             "load_protobuf on a path. Non-trivial "
             "= at least one module and >= 4 node kinds; distinct = hash of "
             "the normalised spec.",
-    "reach": {"oracle_comparisons": 300, "#boundary_classes": 55,
+    "reach": {"oracle_comparisons": 300, "#boundary_classes": 50,
               "#build_routes": 25, "generations:3": 100, "resave_after_edit": 100,
               "resave_after_edit:aux-container-edited-through-kept-reference": 30},
     "assumptions": [
